@@ -13,7 +13,10 @@ use serde_json::{json, Value};
 use std::hash::{BuildHasherDefault, Hasher};
 use twox_hash::XxHash32;
 
-fn smh_f<F: num::Float + rand_distr::uniform::SampleUniform + std::fmt::Debug, H: Hasher + Default>(m: usize, items: &[u64]) -> Result<Vec<Vec<u64>>, String> {
+fn smh_f<F: num::Float + rand_distr::uniform::SampleUniform + std::fmt::Debug, H: Hasher + Default>(m: usize, items: &[u64]) -> Result<Vec<Vec<u64>>, String>
+where
+    rand::distr::StandardUniform: rand::distr::Distribution<F>,
+{
     let items = items.to_vec();
     guarded_mut(move || {
         let mut s = SuperMinHash::<F, u64, H>::new(m, BuildHasherDefault::<H>::default());
@@ -58,7 +61,10 @@ fn smh2_u32_nohash(m: usize, items: &[u64]) -> Result<Vec<Vec<u64>>, String> {
 }
 
 /// the same sketchers, but the instance is first used for another item and reinitialised (sketchers are meant to be reused)
-fn smh_f_reused<F: num::Float + rand_distr::uniform::SampleUniform + std::fmt::Debug, H: Hasher + Default>(m: usize, items: &[u64]) -> Result<Vec<Vec<u64>>, String> {
+fn smh_f_reused<F: num::Float + rand_distr::uniform::SampleUniform + std::fmt::Debug, H: Hasher + Default>(m: usize, items: &[u64]) -> Result<Vec<Vec<u64>>, String>
+where
+    rand::distr::StandardUniform: rand::distr::Distribution<F>,
+{
     let items = items.to_vec();
     guarded_mut(move || {
         let mut s = SuperMinHash::<F, u64, H>::new(m, BuildHasherDefault::<H>::default());
@@ -391,6 +397,7 @@ fn law_exceeds(st: &LawStats) -> Option<String> {
 /// They are found by scanning 2^20 (2^22) items per size; the same number of ordinary items is used for the f64 sketcher.
 pub fn same_set_streams(ctx: &Ctx, base: u64, key_prefix: &str) -> (u64, Vec<Value>) {
     let n_scan: u64 = ctx.pick(1 << 20, 1 << 22);
+    let n_pairs_scan: u64 = 1 << 17;
     let mut details = Vec::new();
     let mut evals = 0u64;
     let patterns: [&[usize]; 7] = [&[0, 0, 1], &[1, 0, 0], &[0, 1, 0], &[0, 0, 0, 1, 1], &[1, 1, 0], &[0, 1, 1, 0], &[1, 0]];
@@ -399,36 +406,83 @@ pub fn same_set_streams(ctx: &Ctx, base: u64, key_prefix: &str) -> (u64, Vec<Val
         ("SuperMinHash<f64,Fnv>", smh_f::<f64, FnvHasher>, false),
         ("SuperMinHash2<u64,Fnv>", smh2_u64::<FnvHasher>, false),
     ] {
-        for &m in &[4usize, 8, 12, 16, 32] {
-            let xs: Vec<u64> = if scan {
-                let mut w: Vec<u64> = (0..n_scan)
+        let is_float = vname.starts_with("SuperMinHash<");
+        // m = 3: a deeper scan (a single-item sketch costs three draws), so that a witness density of 2^-24 is reached
+        for &m in &[3usize, 4, 8, 12, 16, 32] {
+            // (x, the items y it is paired with)
+            let mut cases: Vec<(u64, Vec<u64>)> = Vec::new();
+            let block: Vec<u64> = (0..64u64).map(|i| (base >> 1) + i).collect();
+            let mut n_round = 0usize;
+            let mut n_coll = 0usize;
+            if scan {
+                let n_here = if m == 3 { n_scan << 4 } else { n_scan };
+                // one pass: rounding witnesses (a value that is an exact integer >= 1, or integer parts that are not a
+                // permutation of 0..m) and, for the first 2^17 items, the (position, value) of the level-0 entry
+                let scanned: Vec<(u64, bool, Option<(usize, u64)>)> = (0..n_here)
                     .into_par_iter()
-                    .filter(|i| match f(m, &[base + i]) {
-                        Ok(v) => v[0].iter().any(|b| {
-                            let x = f64::from_bits(*b);
-                            x >= 1. && x.fract() == 0.
-                        }),
-                        Err(_) => true,
+                    .filter_map(|i| match f(m, &[base + i]) {
+                        Ok(v) => {
+                            let vals: Vec<f64> = v[0].iter().map(|b| f64::from_bits(*b)).collect();
+                            let mut parts: Vec<u64> = vals.iter().map(|x| x.floor() as u64).collect();
+                            parts.sort();
+                            let witness = vals.iter().any(|x| *x >= 1. && x.fract() == 0.) || parts.iter().enumerate().any(|(k, p)| *p != k as u64);
+                            let lvl0 = if i < n_pairs_scan { vals.iter().position(|x| *x < 1.).map(|p| (p, v[0][p])) } else { None };
+                            if witness || lvl0.is_some() {
+                                Some((base + i, witness, lvl0))
+                            } else {
+                                None
+                            }
+                        }
+                        Err(_) => Some((base + i, true, None)),
                     })
-                    .map(|i| base + i)
                     .collect();
-                evals += n_scan;
+                evals += n_here;
+                let mut w: Vec<u64> = scanned.iter().filter(|x| x.1).map(|x| x.0).collect();
                 w.sort();
                 w.truncate(48);
-                w
+                n_round = w.len();
+                for x in w {
+                    cases.push((x, block.clone()));
+                }
+                // pairs of different items whose level-0 entry is the same (position, value): 24-bit values collide
+                let mut by_key: std::collections::HashMap<(usize, u64), Vec<u64>> = std::collections::HashMap::new();
+                for (x, _, l) in &scanned {
+                    if let Some(k) = l {
+                        by_key.entry(*k).or_default().push(*x);
+                    }
+                }
+                let mut groups: Vec<Vec<u64>> = by_key.into_values().filter(|g| g.len() > 1).collect();
+                groups.sort();
+                for g in groups.into_iter().take(48) {
+                    n_coll += 1;
+                    cases.push((g[0], g[1..].to_vec()));
+                }
             } else {
-                (0..8u64).map(|i| base + 1000 * i).collect()
-            };
-            let ys: Vec<u64> = (0..64u64).map(|i| (base >> 1) + i).collect();
-            let bad: Option<String> = xs
+                for i in 0..8u64 {
+                    cases.push((base + 1000 * i, block.clone()));
+                }
+            }
+            let bad: Option<String> = cases
                 .par_iter()
-                .find_map_any(|x| {
-                    for y in &ys {
+                .find_map_any(|(x, ys)| {
+                    let sx = f(m, &[*x]).ok()?;
+                    for y in ys {
                         let it = [*x, *y];
                         let reference = match f(m, &it) {
                             Ok(v) => v,
                             Err(e) => return Some(format!("sketch of {:?} failed: {}", it, e)),
                         };
+                        if is_float {
+                            // the sketch of {x,y} is the position-wise minimum of the sketches of {x} and {y}
+                            if let Ok(sy) = f(m, &[*y]) {
+                                for k in 0..m {
+                                    let want = f64::from_bits(sx[0][k]).min(f64::from_bits(sy[0][k]));
+                                    if f64::from_bits(reference[0][k]) != want {
+                                        return Some(format!("the sketch of the stream {:?} holds {} at position {}, the smaller of the two single-item values is {}", it, f64::from_bits(reference[0][k]), k, want));
+                                    }
+                                }
+                            }
+                        }
                         for pat in patterns.iter() {
                             let stream: Vec<u64> = pat.iter().map(|i| it[*i]).collect();
                             match f(m, &stream) {
@@ -444,12 +498,12 @@ pub fn same_set_streams(ctx: &Ctx, base: u64, key_prefix: &str) -> (u64, Vec<Val
                     }
                     None
                 });
-            evals += (xs.len() * ys.len() * (patterns.len() + 1)) as u64;
+            evals += cases.iter().map(|c| c.1.len() * (patterns.len() + 2)).sum::<usize>() as u64;
             if let Some(w) = bad {
                 ctx.violation(&format!("{}:{}", key_prefix, vname), &format!("{} m={}: {}", vname, m, w), json!({"kind": "same-set", "variant": vname, "m": m}));
                 break;
             }
-            details.push(json!({"variant": vname, "m": m, "first_items": xs.len(), "rounding_witnesses": scan, "second_items": ys.len(), "stream_patterns": patterns.len()}));
+            details.push(json!({"variant": vname, "m": m, "first_items": cases.len(), "rounding_witnesses": n_round, "level0_collision_groups": n_coll, "stream_patterns": patterns.len()}));
         }
     }
     (evals, details)
@@ -493,7 +547,7 @@ pub fn run(ctx: &Ctx) -> i32 {
     }
     let (sevals, sdetails) = same_set_streams(ctx, base << 3, "C03-same-set");
     evals += sevals;
-    println!("C03 same-set streams: {} configurations, rounding witnesses per f32 size: {:?}", sdetails.len(), sdetails.iter().filter(|d| d["rounding_witnesses"] == json!(true)).map(|d| d["first_items"].as_u64().unwrap_or(0)).collect::<Vec<_>>());
+    println!("C03 same-set streams: {} configurations, (rounding witnesses, level-0 collision groups) per f32 size: {:?}", sdetails.len(), sdetails.iter().filter(|d| d["variant"] == json!("SuperMinHash<f32,Fnv>")).map(|d| (d["rounding_witnesses"].as_u64().unwrap_or(0), d["level0_collision_groups"].as_u64().unwrap_or(0))).collect::<Vec<_>>());
     let maxz = pdetails.iter().map(|d| d["z_mean"].as_f64().unwrap_or(0.).abs()).fold(0., f64::max);
     println!("C03 partition: {} configurations, max |z| = {:.2}; single-item law: {} items x 7 sizes", pdetails.len(), maxz, n_law);
     let coverage = json!({
@@ -509,7 +563,7 @@ pub fn run(ctx: &Ctx) -> i32 {
         "exhaustive_scope": "part (1) enumerates every labelling of every shape by the block (exact integer identity); parts (2),(3) enumerate finite blocks of the identifier space with a 6-sigma / confirm rule",
         "evaluations": totals.0 + evals,
         "distinct_nontrivial": totals.1,
-        "rule": "(1) for 9 sketcher variants (f32/f64 SuperMinHash, u32/u64 SuperMinHash2; Fnv, XxHash32 and no-op hashers; fresh instances and instances reused after reinit), m in {1,2,3,5,8,16,33}, every shape (|A\\B|,|B\\A|,|A∩B|) with union <=4 (5) and EVERY assignment of block identifiers (10 (13) ids, two blocks) to it: per position, collisions * u == triples * |A∩B| exactly (a broken identity is arbitrated on 2e5 fresh labellings before being reported); distinct = distinct subsets sketched; (2) 8 large / lopsided shapes x 7 variants on T disjoint labellings: |mean-J| <= 6 se and MSE <= J(1-J)/m + 6 se; (3) single-item sketches of 2^16 (2^19) items: integer parts a permutation (exact), orders equally frequent (chi2), fractions uniform (KS) and uncorrelated; (4) J = 1: for m in {4,8,12,16,32}, every pair (x,y) with x one of up to 48 rounding witnesses found by scanning 2^20 (2^22) items (f32: a single-item value that rounded up to the next integer) or 8 ordinary items (f64, SuperMinHash2) and y from a 64-item block, 7 streams that repeat / reorder {x,y}: all positions equal to those of [x,y]",
+        "rule": "(1) for 9 sketcher variants (f32/f64 SuperMinHash, u32/u64 SuperMinHash2; Fnv, XxHash32 and no-op hashers; fresh instances and instances reused after reinit), m in {1,2,3,5,8,16,33}, every shape (|A\\B|,|B\\A|,|A∩B|) with union <=4 (5) and EVERY assignment of block identifiers (10 (13) ids, two blocks) to it: per position, collisions * u == triples * |A∩B| exactly (a broken identity is arbitrated on 2e5 fresh labellings before being reported); distinct = distinct subsets sketched; (2) 8 large / lopsided shapes x 7 variants on T disjoint labellings: |mean-J| <= 6 se and MSE <= J(1-J)/m + 6 se; (3) single-item sketches of 2^16 (2^19) items: integer parts a permutation (exact), orders equally frequent (chi2), fractions uniform (KS) and uncorrelated; (4) J = 1: for m in {3,4,8,12,16,32}, every pair (x,y) with x one of up to 48 rounding witnesses found by scanning 2^20 (2^22; 16x more at m = 3) items through the real f32 sketcher (a single-item value that is an exact integer, or integer parts that are not a permutation) and y from a 64-item block, every pair of up to 48 groups of items whose level-0 entries collide on (position, 24-bit value) among 2^17 items, and 8 ordinary items (f64, SuperMinHash2): 7 streams that repeat / reorder {x,y} give the positions of [x,y], which is the position-wise minimum of the two single-item sketches",
         "identity": idetails,
         "identity_subset_triples": totals.0,
         "identity_comparisons": totals.2,
